@@ -269,7 +269,7 @@ def slotIndex (slots : List Slot) (key : Nat) : Option Nat :=
   slots.findIdx? (fun sl => sl.key == key)
 
 /-- admission decision of addLeafToPool for an entry that is in neither lookup structure -/
-def admit (poolSize : Nat) (pool : List Slot) (low : Bool) : Src :=
+def admission (poolSize : Nat) (pool : List Slot) (low : Bool) : Src :=
   if poolSize > 0 ∧ pool.length ≥ poolSize then
     if low ∨ ¬ pool.any (·.low) then .ratelimit else .sequencer
   else .sequencer
@@ -362,7 +362,8 @@ def step (s : Sys) : Ev → Option Sys
          else some (s.setInst i { x with phase := .loading (.clock1 c) }))
       else none
     | .loading .lockFetch, .nf =>
-      if s.lock = none then some (s.setInst i { x with phase := .loading .failing }) else none
+      -- a different key means a different log ID: nothing is found under it
+      if s.lock = none ∨ x.cfgBad then some (s.setInst i { x with phase := .loading .failing }) else none
     | .loading .lockFetch, .err => some (s.setInst i { x with phase := .loading .failing })
     | _, _ => none
   | .lockCreate i c r =>
@@ -540,7 +541,7 @@ def step (s : Sys) : Ev → Option Sys
     else if inSequencing x key then (if src = .pool then some s else none)
     else if (cacheLookup x.cache key).isSome then (if src = .cache then some s else none)
     else
-      let d := admit s.poolSize x.pool low
+      let d := admission s.poolSize x.pool low
       if src ≠ d then none else
       match d with
       | .ratelimit => some s
